@@ -11,6 +11,23 @@
 EXTENDS Generators, TraceBase
 
 Returned(r) == r.raised = "" /\ r.malformed = ""
+
+(* ---- scale regime.  Records with several hundred nodes (K up to n(n-1) > 10^5) are judged  *)
+(* by the very same property clauses; only (i) the outer band of a ring lattice comes from   *)
+(* the closed form OuterBandF (the set-based OuterBand needs minutes at n = 400) and (ii)    *)
+(* the drift replay is left out ("na") where the recorded permutation was not kept (10^5     *)
+(* entries) or the replay recursion would be thousands of levels deep.                       *)
+Big(r) == r.n > 64
+IdSeq(m) == [t \in 1..m |-> t]
+ASSUME \A n \in 1..9 :
+         /\ \A rr \in 1..MaxBand(n) : CumCap(n, rr) = Cardinality(UpTo(n, rr))
+         /\ \A K \in 0..(n * (n - 1)) :
+              /\ OuterBandF(n, K) = OuterBand(n, K)
+              /\ \A A \in {BandsUpTo(n, OuterBand(n, K)), BandsUpTo(n, MaxBand(n)), Zero(n)} :
+                   /\ NearerBandsFullAt(n, A, OuterBand(n, K)) = NearerBandsFull(n, A, K)
+                   /\ NothingBeyondAt(n, A, OuterBand(n, K)) = NothingBeyondOuterBand(n, A, K)
+ASSUME \A n \in 2..7 : \A K \in 0..(n * (n - 1)) :
+         LET p == IdSeq(Cardinality(Band(n, OuterBand(n, K)))) IN RingResultF(n, K, p) = RingResult(n, K, p)
 HavePerm(r, m) == IsPermOf(r.perm, m)
 DriftOf(r, predicted) ==
   IF ~Returned(r) THEN "na"
@@ -32,7 +49,8 @@ JudgeRandDir(r) ==
   "ok")))))))
 DriftRand(r, und) ==
   LET m == IF und THEN (r.n * (r.n - 1)) \div 2 ELSE r.n * (r.n - 1) IN
-  IF ~HavePerm(r, m) \/ r.k > m THEN (IF Returned(r) THEN "differs:no_permutation_of_the_admissible_cells_drawn" ELSE "na")
+  IF Big(r) THEN "na"      \* the permutation of 10^4..10^5 cells is not recorded
+  ELSE IF ~HavePerm(r, m) \/ r.k > m THEN (IF Returned(r) THEN "differs:no_permutation_of_the_admissible_cells_drawn" ELSE "na")
   ELSE DriftOf(r, RandResult(r.n, und, r.perm, r.k))
 
 (* ---- makerandCIJ_und: the same, "symmetric in the undirected case"; K = number of   *)
@@ -60,17 +78,19 @@ JudgeRing(r) ==
   Chk("Shape",      Shape(n, A),
   Chk("EmptyDiag",  EmptyDiag(n, A),
   Chk("CountK",     CountIs(n, A, r.k),
-  Chk("NearerBandsFull",        NearerBandsFull(n, A, r.k),
-  Chk("NothingBeyondOuterBand", NothingBeyondOuterBand(n, A, r.k),
+  Chk("NearerBandsFull",        IF Big(r) THEN NearerBandsFullAt(n, A, OuterBandF(n, r.k))
+                                ELSE NearerBandsFull(n, A, r.k),
+  Chk("NothingBeyondOuterBand", IF Big(r) THEN NothingBeyondAt(n, A, OuterBandF(n, r.k))
+                                ELSE NothingBeyondOuterBand(n, A, r.k),
   "ok"))))))))
 DriftRing(r) ==
-  LET n == r.n  rr == OuterBand(n, r.k)
-      ob == Cardinality(UpTo(n, rr)) - r.k
-      m  == Cardinality(Band(n, rr)) IN
+  LET n == r.n  rr == IF Big(r) THEN OuterBandF(n, r.k) ELSE OuterBand(n, r.k)
+      ob == IF Big(r) THEN CumCap(n, rr) - r.k ELSE Cardinality(UpTo(n, rr)) - r.k
+      m  == IF Big(r) THEN CumCap(n, rr) - CumCap(n, rr - 1) ELSE Cardinality(Band(n, rr)) IN
   IF ~RingFeasible(n, r.k) THEN "na"
   ELSE IF ob > 0 /\ ~HavePerm(r, m) THEN (IF Returned(r) THEN "differs:no_permutation_of_the_outer_band_drawn" ELSE "na")
   ELSE IF Returned(r) /\ ~Is01(n, r.A) THEN "differs:values_not_01"
-  ELSE DriftOf(r, RingResult(n, r.k, r.perm))
+  ELSE DriftOf(r, IF Big(r) THEN RingResultF(n, r.k, r.perm) ELSE RingResult(n, r.k, r.perm))
 ClassRing(r) == IF NeedsAntipodalBand(r.n, r.k) THEN "antipodal_band" ELSE "any"
 
 (* ---- maketoeplitzCIJ: "exactly K connections", empty diagonal.  Its documented       *)
@@ -126,9 +146,12 @@ DFModel(r) ==
   IF HavePerm(r, KOf(r)) /\ \A t \in 1..Len(r.draws) : r.draws[t] \in 1..KOf(r)
   THEN DFRun(r.n, r.inv, r.outv, r.perm, r.draws)
   ELSE [pc |-> "norun"]
+(* scale regime: the replay recursion (one level per draw, one per placed edge) is cut off  *)
+TooDeep(r) == Big(r) /\ (Len(r.draws) > 2500 \/ Len(r.perm) > 12000)
 JudgeDegrees(r) ==
   LET n == r.n  A == r.A IN
   Skip("sums_differ", SeqSum(r.inv) # SeqSum(r.outv),
+  Skip("unresolved_and_replay_too_deep", r.raised = "BCTParamError" /\ TooDeep(r),
   Skip("no_switch_candidate_left_flag0", r.raised = "BCTParamError" /\ DFModel(r).pc = "stuck",
   Chk("Returns",    r.raised = "",
   Chk("WellFormed", r.malformed = "",
@@ -137,10 +160,11 @@ JudgeDegrees(r) ==
   Chk("EmptyDiag",  EmptyDiag(n, A),
   Chk("RowSumsAreOutDegrees", RowSums(n, A) = SeqFn(n, r.outv),
   Chk("ColSumsAreInDegrees",  ColSums(n, A) = SeqFn(n, r.inv),
-  "ok")))))))))
+  "ok"))))))))))
 DriftDegrees(r) ==
   LET m == DFModel(r) IN
-  IF r.raised # "" THEN (IF r.raised = "BCTParamError" /\ m.pc = "stuck" THEN "same" ELSE "na")
+  IF TooDeep(r) THEN "na"
+  ELSE IF r.raised # "" THEN (IF r.raised = "BCTParamError" /\ m.pc = "stuck" THEN "same" ELSE "na")
   ELSE IF r.malformed # "" THEN "na"
   ELSE IF m.pc = "norun" THEN "differs:draws_not_recorded"
   ELSE IF m.pc # "done" THEN "differs:machine_ends_" \o m.pc
